@@ -62,6 +62,16 @@ def make_config(seed, tier="quick", corrupt=False, index=0):
     if cfg["align4096"]:
         cfg["chunk_law"] = "all"
         cfg["read_cap"] = 0
+    # a network stall between two parts of one frame (separate stream, 1 C03 run in 7 of those whose chunk law cuts
+    # frames): more than a heartbeat interval of simulated time passes before the rest arrives - the watchdog sends
+    # its TestRequest meanwhile, the peer is still there and the frame is still one frame
+    rs = random.Random(seed ^ 0xC0357)
+    if (not corrupt) and rs.random() < 1 / 7 and not cfg["align4096"]:
+        if cfg["chunk_law"] not in ("cut1", "cut2", "marker", "byte", "small"):
+            cfg["chunk_law"] = rs.choice(["cut1", "cut2", "small"])
+        cfg["stall_cut"] = True
+        cfg["hb"] = 5
+        cfg["read_cap"] = 0
     if corrupt:
         cfg["n_frames"] = r.randint(1, 6)
         cfg["n_follow"] = r.randint(8, 12)
@@ -113,6 +123,7 @@ class StreamSim(PeerSim):
         self.faults_applied = []
         self.r_content = random.Random(cfg["seed"] ^ 0xABCDEF)
         self.session_dropped = False
+        self.stall_until = None
         if self.eut_role == "acceptor":
             self.logon_pending = True
 
@@ -174,7 +185,17 @@ class StreamSim(PeerSim):
             if self.active() and self.at_rest():
                 out.append((("burst",), 5.0))
             return out + self.net_enabled()
+        if self.stall_until is not None and self.loop.time() < self.stall_until:
+            return []  # the network stalls: nothing is delivered, simulated time passes (timers only)
         out = self.net_enabled()
+        if cfg.get("stall_cut") and self.stall_until is None:
+            conn = self.peer_conn()
+            if conn is not None:
+                s = self.peer_side()
+                rx = conn.tr[1 - s]
+                rd = getattr(getattr(rx, "protocol", None), "_stream_reader", None) if rx is not None else None
+                if conn.q[s] and rd is not None and not len(rd._buffer) and self.eut._msg_buffer and not self.loop._ready:
+                    out.append((("stall",), 8.0))
         if cfg["chunk_law"] in ("cut1", "cut2", "marker", "byte", "small"):
             # a cut is a cut only if the reader has consumed what was delivered before the next bytes arrive
             # (otherwise the StreamReader coalesces the deliveries into one read)
@@ -283,6 +304,8 @@ class StreamSim(PeerSim):
             return not self.burst_done and self.active()
         if a[0] in ("corrupt", "malformed", "follow"):
             return self.cfg["corrupt"] and self.burst_done and not self.follow_sent and self.peer.connected
+        if a[0] == "stall":
+            return self.stall_until is None and self.burst_done and self.peer.connected
         return False
 
     def fire_family(self, a):
@@ -312,6 +335,12 @@ class StreamSim(PeerSim):
                         break
             if any(len(sp["frame"]) > 4096 for sp in self.plan):
                 self.probe("frame_over_4096_bytes")
+        elif a[0] == "stall":
+            d = 1.2 * cfg["hb"]
+            self.stall_until = self.loop.time() + d
+            self.loop.call_at(self.stall_until, lambda: None)
+            self.fault("stall_between_two_parts_of_a_frame")
+            self.rec("stall", d, len(self.eut._msg_buffer))
         elif a[0] == "corrupt":
             self.apply_corruption(a[1], a[2], a[3])
         elif a[0] == "malformed":
